@@ -85,6 +85,17 @@ def make_case(prop, seed, i, tier):
         variant = pick_variant(prop, rng) if rng.random() < 0.5 else "single"
         return dict(prop=prop, i=i, source="shape-chain" + ("+" + variant if variant != "single" else ""), spec=spec,
                     variant=variant, vseed=rng.randrange(10 ** 9))
+    if 0.22 <= r < 0.29:
+        # beyond the usual sizes: one dimension stretched (run length, fan-in, tasks per component, length of a
+        # finish-gated chain, team size, ...), the rest small; the dimension a property is most sensitive to is
+        # drawn more often
+        prefer = {"C01": ["wide"] * 5, "C02": ["ff_chain"] * 5 + ["long"] * 2, "C06": ["ff_chain"] * 5, "C03": ["many_resources"] * 4,
+                  "C04": ["numeric_ids"] * 4 + ["many_resources"], "C07": ["many_resources"] * 3 + ["long"] * 3,
+                  "C13": ["many_components"] * 6, "C14": ["one_component"] * 4}.get(prop, [])
+        spec = G.gen_scale(rng, rng.choice(list(G.SCALE_KINDS) + prefer))
+        variant = pick_variant(prop, rng) if rng.random() < 0.3 else "single"
+        return dict(prop=prop, i=i, source="scale:" + spec["scale"] + ("+" + variant if variant != "single" else ""), spec=spec,
+                    variant=variant, vseed=rng.randrange(10 ** 9))
     kw = dict(PROFILE[prop])
     if big:
         kw["max_tasks"] = 14 if rng.random() < 0.3 else 8
